@@ -13,9 +13,12 @@ from `reuse lint --json` and from generator ground truth).
 -/
 import ReuseVerif.Lemmas.SpdxDoc
 import ReuseVerif.Lemmas.BoolExpr
+import ReuseVerif.Theorems.C01
+import ReuseVerif.Lemmas.SpdxE2E
 
 namespace C18
-open Py Model Model.Spdx Spec.Spdx
+open Py Model.Spdx Spec Spec.Spdx
+open Model hiding generate isLicenseRef Entry
 
 -- ---------------------------------------------------------------- File sections
 
@@ -23,7 +26,7 @@ open Py Model Model.Spdx Spec.Spdx
     and no other (a permutation of the reports' blocks: they are sorted by name),
     between the header with the relationships and the licence sections. -/
 theorem C18_sections (p : DocParams) (rs : List FileRep) (ls : List LicEntry) :
-    ∃ blocks : List (List Entry),
+    ∃ blocks : List (List Spdx.Entry),
       docEntries p rs ls = header p ++ relEntries rs ++ blocks.flatten ++ (licBlocks ls).flatten
       ∧ blocks.Perm (rs.map fileBlock) :=
   ⟨fileBlocks rs, rfl, (List.mergeSort_perm rs _).map fileBlock⟩
@@ -153,7 +156,7 @@ theorem C18_licenseref (p : DocParams) (rs : List FileRep) (ls : List LicEntry) 
     (licBlocks ls).Perm ((ls.filter fun l => isLicenseRef l.ident).map licBlock)
     ∧ (∀ l, licBlock l = [⟨tagLicenseId, .single l.ident⟩, ⟨tagLicenseName, .single noAssertion⟩,
                             ⟨tagExtracted, .text l.first l.rest⟩])
-    ∧ (∀ i, (⟨tagLicenseId, .single i⟩ : Entry) ∈ docEntries p rs ls ↔
+    ∧ (∀ i, (⟨tagLicenseId, .single i⟩ : Spdx.Entry) ∈ docEntries p rs ls ↔
             (isLicenseRef i = true ∧ ∃ l ∈ ls, l.ident = i)) := by
   refine ⟨?_, fun _ => rfl, ?_⟩
   · exact ((List.mergeSort_perm ls _).filter _).map licBlock
@@ -163,8 +166,8 @@ theorem C18_licenseref (p : DocParams) (rs : List FileRep) (ls : List LicEntry) 
             fun l => ⟨tagLicenseId, .single l.ident⟩ := by
       simp +decide [docEntries, header, relEntries, relEntry, fileBlocks, licBlocks, fileBlock, licBlock,
         hasTag, List.filter_map, List.filter_flatten, Function.comp_def]
-    have hm : (⟨tagLicenseId, .single i⟩ : Entry) ∈ docEntries p rs ls ↔
-        (⟨tagLicenseId, .single i⟩ : Entry) ∈ (docEntries p rs ls).filter (hasTag tagLicenseId) := by
+    have hm : (⟨tagLicenseId, .single i⟩ : Spdx.Entry) ∈ docEntries p rs ls ↔
+        (⟨tagLicenseId, .single i⟩ : Spdx.Entry) ∈ (docEntries p rs ls).filter (hasTag tagLicenseId) := by
       simp [List.mem_filter, hasTag]
     rw [hm, hf]
     simp only [List.mem_map, List.mem_filter, Entry.mk.injEq, Value.single.injEq, true_and]
@@ -229,6 +232,271 @@ theorem C18_concluded_valid (c e : BoolExpr) (es : List BoolExpr)
     BoolExpr.eval σ c = (e :: es).all (BoolExpr.eval σ) := by
   rw [(C18_equiv_sound_complete _ _).mp h σ, C18_conj_eval]; rfl
 
+-- ---------------------------------------------------------------- the composed model: `reuse spdx` from the tree
+
+/-! `Model.spdxE2E` (Model/SpdxE2E.lean) builds the document from the *tree*: the file reports are those of
+the composed lint model (`Model.filesOf`: C03 walk, own source, REUSE.toml chain, extraction, C04
+attribution), the licence texts are the bytes of the files `findLicenses` recorded below LICENSES/, decoded
+with replacement.  The theorems below are composition corollaries of the C18 theorems above with
+`C01_e2e_files` / `C01_e2e_attribution` / `C01_e2e_licences`.  Oracles (fields of `SpdxOracles`): sha1, md5,
+license-expression's `==` / `str`, boolean.py's simplify.  Hypotheses: `KeysRespectEq` (equal expressions
+mention the same identifiers; evaluated per case by the driver, `C18_e2e_hyp`), `plainNames` (C06). -/
+
+section E2E
+variable {tbl : LicenseMap} {c : E2ECfg} {o : SpdxOracles} {g : GlobalLic} {tree : ETree} {add : Bool}
+  {p : DocParams}
+
+/-- How `reuse spdx` ends on a tree. -/
+theorem C18_e2e_outcome (tbl : LicenseMap) (c : E2ECfg) (o : SpdxOracles) (add : Bool) (p : DocParams) (tree : ETree) :
+    (spdxE2E tbl c o add p tree = .usageError ↔ (add = true ∧ p.person = none ∧ p.organization = none)) ∧
+    (∀ t, spdxE2E tbl c o add p tree = .document t ↔
+      ¬ (add = true ∧ p.person = none ∧ p.organization = none) ∧
+      ∃ g fd, globalOf c tree = some g ∧ findLicenses tbl (licFilesOf tree) = some fd ∧
+        t = docText p (spdxReps c o add g tree) (spdxLics tree fd)) := by
+  unfold spdxE2E spdxCmd spdxReps
+  cases add <;> cases hp : p.person <;> cases ho : p.organization <;>
+    cases hg : globalOf c tree <;> cases hf : findLicenses tbl (licFilesOf tree) <;>
+    simp [eq_comm]
+
+
+/-- The File sections of the composed document: between the header with the relationships and the
+    licence sections, one block per file of `spdxFiles` (a permutation: they are sorted by name) —
+    and those files are exactly the covered files of the tree (`Spec.Covered`, C03) whose report can be
+    generated.  Composition of `C18_sections` with `C01_e2e_files` / `C03_walk`. -/
+theorem C18_e2e_sections (ls : List LicEntry) :
+    (∃ blocks : List (List Spdx.Entry),
+      docEntries p (spdxReps c o add g tree) ls
+        = header p ++ relEntries (spdxReps c o add g tree) ++ blocks.flatten ++ (licBlocks ls).flatten
+      ∧ blocks.Perm ((spdxFiles c g tree).map fun f => fileBlock (Spdx.generate o.md5 add (fileInputOf c o tree f))))
+    ∧ ∀ q, q ∈ (spdxFiles c g tree).map (·.path) ↔
+        (Covered (c.walk false) "" (toNodes tree) q ∧ ReadableT c g tree q) := by
+  refine ⟨?_, fun q => ?_⟩
+  · obtain ⟨blocks, h1, h2⟩ := C18_sections p (spdxReps c o add g tree) ls
+    refine ⟨blocks, h1, ?_⟩
+    simpa [spdxReps, spdxInputs, List.map_map, Function.comp_def] using h2
+  · rw [mem_spdxFiles_paths, ReportedT, C01.C01_e2e_covered]
+
+/-- The `FileName` entries of the whole document: one per file of `spdxFiles`, named `./` + the path
+    relative to the *root*; a name occurs iff it is that of a covered file whose report can be generated. -/
+theorem C18_e2e_file_names (ls : List LicEntry) :
+    ((docEntries p (spdxReps c o add g tree) ls).filter (hasTag tagFileName)).Perm
+        ((spdxFiles c g tree).map fun f => ⟨tagFileName, .single (spdxName f.path)⟩)
+    ∧ ∀ n, (⟨tagFileName, .single n⟩ : Spdx.Entry) ∈ docEntries p (spdxReps c o add g tree) ls ↔
+        ∃ q, Covered (c.walk false) "" (toNodes tree) q ∧ ReadableT c g tree q ∧ n = spdxName q := by
+  have hperm : ((docEntries p (spdxReps c o add g tree) ls).filter (hasTag tagFileName)).Perm
+      ((spdxFiles c g tree).map fun f => ⟨tagFileName, .single (spdxName f.path)⟩) := by
+    have := C18_file_names p (spdxReps c o add g tree) ls
+    simpa [spdxReps, spdxInputs, List.map_map, Function.comp_def, Spdx.generate, fileInputOf] using this
+  refine ⟨hperm, fun n => ?_⟩
+  have hm : (⟨tagFileName, .single n⟩ : Spdx.Entry) ∈ docEntries p (spdxReps c o add g tree) ls ↔
+      (⟨tagFileName, .single n⟩ : Spdx.Entry) ∈ (docEntries p (spdxReps c o add g tree) ls).filter (hasTag tagFileName) := by
+    simp [List.mem_filter, hasTag]
+  rw [hm, hperm.mem_iff]
+  simp only [List.mem_map, Entry.mk.injEq, Value.single.injEq, true_and]
+  constructor
+  · rintro ⟨f, hf, rfl⟩
+    obtain ⟨q, ⟨hc, hr⟩, rfl⟩ := mem_spdxFiles.mp hf
+    exact ⟨q, (C01.C01_e2e_covered q).mp hc, hr, rfl⟩
+  · rintro ⟨q, hc, hr, rfl⟩
+    exact ⟨_, mem_spdxFiles.mpr ⟨q, ⟨(C01.C01_e2e_covered q).mpr hc, hr⟩, rfl⟩, rfl⟩
+
+/-- `reuse spdx` and `reuse lint` walk the same project: the File sections are for the files of the
+    composed lint report's `files` list, in the same order. -/
+theorem C18_e2e_same_files_as_lint {files : List EFile} {r : Report}
+    (hg : globalOf c tree = some g) (h : lintE2E tbl c tree = .ok files r) :
+    r.fileReports.map (·.path) = (spdxFiles c g tree).map fun f => relText f.path := by
+  obtain ⟨g', hg', hgen, _⟩ := lintE2E_ok h
+  rw [hg] at hg'; cases hg'
+  obtain ⟨fd, _, rfl⟩ := split_generate hgen
+  rw [spdxFiles_eq_fileReports, List.map_map]
+  rfl
+
+/-- One DESCRIBES relationship per file of the document, and no other relationship. -/
+theorem C18_e2e_describes (ls : List LicEntry) :
+    (docEntries p (spdxReps c o add g tree) ls).filter (hasTag tagRelationship) = relEntries (spdxReps c o add g tree)
+    ∧ (relEntries (spdxReps c o add g tree)).Perm
+        ((spdxFiles c g tree).map fun f => relEntry (Spdx.generate o.md5 add (fileInputOf c o tree f))) := by
+  obtain ⟨h1, h2⟩ := C18_describes p (spdxReps c o add g tree) ls
+  refine ⟨h1, ?_⟩
+  simpa [spdxReps, spdxInputs, List.map_map, Function.comp_def] using h2
+
+/-- What the report of the covered file `q` holds: its name relative to the root, the SHA-1 of its own
+    bytes (never the sibling's), the SPDXID over both; the licence identifiers and the copyright lines
+    are what the sources-and-precedence rules (C04, `C01_e2e_attribution`) attribute to `q` — the lines
+    without the blank ones, in Python's sort order; LicenseConcluded by the three-way rule. -/
+theorem C18_e2e_file_report (q : List String) :
+    let r := Spdx.generate o.md5 add (fileInputOf c o tree (fileOf c g tree q))
+    r.name = spdxName q
+    ∧ r.chkSum = o.sha1 (contentAt tree q)
+    ∧ r.spdxId = spdxRefPrefix ++ o.md5 (spdxName q ++ o.sha1 (contentAt tree q))
+    ∧ (KeysRespectEq c o ((fileOf c g tree q).infos.flatMap (·.lic)) → ∀ k, k ∈ r.keys ↔ LicKeyT c g tree q k)
+    ∧ (∀ l, l ∈ r.copyright ↔ NoticeT c g tree q l)
+    ∧ r.copyright.Pairwise (fun a b => a ≤ b)
+    ∧ (add = false → r.concluded = noAssertion)
+    ∧ (add = true → ¬ HasExprT c g tree q → r.concluded = noneText)
+    ∧ (add = true → HasExprT c g tree q →
+        r.concluded = o.simplify (joinedExprs o (exprsOf o (fileOf c g tree q)))) := by
+  intro r
+  obtain ⟨_, _, _, _, _, hno, hnone, hsimp⟩ := C18_generate o.md5 add (fileInputOf c o tree (fileOf c g tree q))
+  refine ⟨rfl, rfl, rfl, fun hk k => mem_keys_iff add q k hk, fun l => mem_copyright_iff add q l,
+    copyright_sorted _ _ _, hno, ?_, ?_⟩
+  · intro ha hne; exact hnone ha ((exprKeys_nil_iff q).mpr hne)
+  · intro ha he
+    exact hsimp ha (fun hnil => (exprKeys_nil_iff q).mp hnil he)
+
+
+/-- The File section of `q` shows that: a `LicenseInfoInFile` entry per attributed identifier and no
+    other, and `FileCopyrightText` is `NONE` exactly when no notice is attributed to `q`. -/
+theorem C18_e2e_file_section (q : List String)
+    (hk : KeysRespectEq c o ((fileOf c g tree q).infos.flatMap (·.lic))) :
+    let r := Spdx.generate o.md5 add (fileInputOf c o tree (fileOf c g tree q))
+    (∀ k, (⟨tagInfoInFile, .single k⟩ : Spdx.Entry) ∈ fileBlock r ↔ LicKeyT c g tree q k)
+    ∧ (fileBlock r).filter (hasTag tagCopyright) = [⟨tagCopyright, copyrightValue r.copyright⟩]
+    ∧ (copyrightValue r.copyright = .single noneText ↔ ¬ ∃ l, NoticeT c g tree q l) := by
+  intro r
+  obtain ⟨_, _, _, _, hinfo, hcop, hnil, hcons⟩ := C18_file_block r
+  refine ⟨fun k => ?_, hcop, ?_⟩
+  · have hm : (⟨tagInfoInFile, .single k⟩ : Spdx.Entry) ∈ fileBlock r ↔
+        (⟨tagInfoInFile, .single k⟩ : Spdx.Entry) ∈ (fileBlock r).filter (hasTag tagInfoInFile) := by
+      simp [List.mem_filter, hasTag]
+    rw [hm, hinfo.mem_iff, ← (C18_e2e_file_report (c := c) (o := o) (g := g) (tree := tree) (add := add) q).2.2.2.1 hk k]
+    simp only [List.mem_map, Entry.mk.injEq, Value.single.injEq, true_and, exists_eq_right]
+    rfl
+  · have hmem := (C18_e2e_file_report (c := c) (o := o) (g := g) (tree := tree) (add := add) q).2.2.2.2.1
+    constructor
+    · rintro hv ⟨l, hl⟩
+      have hlm : l ∈ r.copyright := (hmem l).mpr hl
+      obtain ⟨it, _, _, hb, rfl⟩ := hl
+      cases hc : r.copyright with
+      | nil => rw [hc] at hlm; cases hlm
+      | cons b bs =>
+        have hne : b ≠ [] ∨ bs ≠ [] := by
+          by_cases hb0 : b = []
+          · subst hb0
+            -- the empty line would be a blank attributed line
+            have : ([] : Text) ∈ r.copyright := by rw [hc]; exact List.mem_cons_self
+            obtain ⟨it', _, _, hb', he⟩ := (hmem []).mp this
+            have : isBlankStr it'.value = true := by
+              have h0 : it'.value.toList = [] := he.symm
+              simp [isBlankStr, h0, Py.strip, Py.rstrip, Py.lstrip]
+            rw [this] at hb'; cases hb'
+          · exact .inl hb0
+        rw [hcons b bs hc hne] at hv
+        cases hv
+    · intro hno
+      apply hnil
+      rw [List.eq_nil_iff_forall_not_mem]
+      intro l hl
+      exact hno ⟨l, (hmem l).mp hl⟩
+
+/-- The licence sections of the composed document: a `LicenseID` entry for exactly the `LicenseRef-`
+    identifiers carried by the files below LICENSES/ (used or not); with the tree-level reading of
+    `C01_e2e_licences`: regular files at any depth below the directory LICENSES, no component hidden.
+    Each section holds the text of its file, decoded with replacement, line ends folded. -/
+theorem C18_e2e_licenseref_partial {fd : Found} (rs : List FileRep)
+    (hp : plainNames tbl (licFilesOf tree) = true)
+    (hf : findLicenses tbl (licFilesOf tree) = some fd) :
+    (∀ i, (⟨tagLicenseId, .single i⟩ : Spdx.Entry) ∈ docEntries p rs (spdxLics tree fd) ↔
+        (Spdx.isLicenseRef i = true ∧ ∃ path, Provides tbl (licFilesOf tree) i path))
+    ∧ (∀ cs, elookup tree "LICENSES" = some (.dir cs) → ∀ i path, Provides tbl (licFilesOf tree) i path ↔
+        ((∃ rel, LicIn cs rel ∧ path = relText ("LICENSES" :: rel)) ∧ isLicFile path = true ∧
+          (carried tbl (pathName path)).1 = i))
+    ∧ (∀ l ∈ spdxLics tree fd, ∃ path, Provides tbl (licFilesOf tree) l.ident path ∧
+        (l.first, l.rest) = licTextLines (licContent tree path)) := by
+  refine ⟨fun i => ?_, fun cs hd i path => ?_, fun l hl => ?_⟩
+  · rw [(C18_licenseref p rs (spdxLics tree fd)).2.2 i]
+    constructor
+    · rintro ⟨href, l, hl, rfl⟩
+      obtain ⟨e, he, rfl⟩ := mem_spdxLics.mp hl
+      exact ⟨href, e.2, (mem_licenses_iff hp hf _ _).mp he⟩
+    · rintro ⟨href, path, hpv⟩
+      exact ⟨href, licEntryOf tree (i, path), mem_spdxLics.mpr ⟨(i, path), (mem_licenses_iff hp hf _ _).mpr hpv, rfl⟩, rfl⟩
+  · unfold Provides
+    rw [C01.C01_e2e_licences hd]
+  · obtain ⟨e, he, rfl⟩ := mem_spdxLics.mp hl
+    exact ⟨e.2, (mem_licenses_iff hp hf _ _).mp he, rfl⟩
+
+/-- Well-formedness of what `reuse spdx` writes for a tree: when the side condition `docOk` holds for
+    the composed reports and licence texts, the text is the model's physical lines, each followed by a
+    line feed, none containing one, and the tag-value grammar reads them back as the document's entries. -/
+theorem C18_e2e_wellformed {t : Text} (h : spdxE2E tbl c o add p tree = .document t) :
+    ∃ g fd, globalOf c tree = some g ∧ findLicenses tbl (licFilesOf tree) = some fd ∧
+      t = docText p (spdxReps c o add g tree) (spdxLics tree fd) ∧
+      (docOk p (spdxReps c o add g tree) (spdxLics tree fd) = true →
+        readDoc (docLines p (spdxReps c o add g tree) (spdxLics tree fd))
+            = some (docEntries p (spdxReps c o add g tree) (spdxLics tree fd))
+        ∧ isTagValueDoc (docLines p (spdxReps c o add g tree) (spdxLics tree fd)) = true
+        ∧ (∀ l ∈ docLines p (spdxReps c o add g tree) (spdxLics tree fd), noBreak l = true)
+        ∧ t = (docLines p (spdxReps c o add g tree) (spdxLics tree fd)).flatMap (· ++ nl)) := by
+  obtain ⟨_, g, fd, hg, hf, rfl⟩ := ((C18_e2e_outcome tbl c o add p tree).2 t).mp h
+  refine ⟨g, fd, hg, hf, rfl, fun hok => ?_⟩
+  obtain ⟨h1, h2⟩ := C18_wellformed _ _ _ hok
+  obtain ⟨h3, h4⟩ := C18_lines_physical _ _ _ hok
+  exact ⟨h1, h2, h3, h4⟩
+
+/-- The creator requirement on the tree: the option check precedes everything else. -/
+theorem C18_e2e_creator :
+    spdxE2E tbl c o add p tree = .usageError ↔ (add = true ∧ p.person = none ∧ p.organization = none) :=
+  (C18_e2e_outcome tbl c o add p tree).1
+
+/-- the decidable form of the oracle hypothesis implies it -/
+theorem C18_e2e_hyp {es : List String} (h : keysRespectEqB c o es = true) : KeysRespectEq c o es := by
+  intro a ha b hb hkey k
+  have := List.all_eq_true.mp (List.all_eq_true.mp h a ha) b hb
+  simp only [Bool.or_eq_true, bne_iff_ne, ne_eq, Bool.and_eq_true, List.all_eq_true, List.contains_eq_mem,
+    decide_eq_true_eq] at this
+  rcases this with hne | ⟨h1, h2⟩
+  · exact absurd hkey hne
+  · exact ⟨h1 k, h2 k⟩
+
+/-- File sections ↔ covered files is a bijection: in a tree whose directories hold no name twice, a covered
+    file whose report can be generated is the path of exactly one file of the document, any other path of none. -/
+theorem C18_e2e_files_once (hwf : wfEntries tree) (q : List String) :
+    ((Covered (c.walk false) "" (toNodes tree) q ∧ ReadableT c g tree q) →
+      ((spdxFiles c g tree).map (·.path)).count q = 1) ∧
+    (¬ (Covered (c.walk false) "" (toNodes tree) q ∧ ReadableT c g tree q) →
+      ((spdxFiles c g tree).map (·.path)).count q = 0) := by
+  have hiff : q ∈ (spdxFiles c g tree).map (·.path) ↔
+      (Covered (c.walk false) "" (toNodes tree) q ∧ ReadableT c g tree q) := by
+    rw [mem_spdxFiles_paths, ReportedT, C01.C01_e2e_covered]
+  rw [(spdxFiles_paths_nodup hwf).count]
+  constructor
+  · intro h; rw [if_pos (hiff.mpr h)]
+  · intro h; rw [if_neg (fun hm => h (hiff.mp hm))]
+
+/-- ... and distinct files have distinct `FileName`s (names non-empty and slash-free, as on any file
+    system), hence — `C18_ids_distinct` — distinct SPDXIDs when sha1 answers with 40 characters and md5 is
+    injective on the finite set `{name ++ checksum}` of this project. -/
+theorem C18_e2e_ids_distinct (hwf : wfEntries tree) (hgood : ∀ q, CoveredT c tree q → goodNames q)
+    (hlen : ∀ q, CoveredT c tree q → (o.sha1 (contentAt tree q)).length = chkLen)
+    (hinj : injOn o.md5 ((spdxInputs c o g tree).map fun f => f.name ++ f.chk) = true) :
+    ((spdxFiles c g tree).map fun f => spdxName f.path).Nodup ∧
+    ((spdxReps c o add g tree).map (·.spdxId)).Nodup := by
+  have hcov : ∀ f ∈ spdxFiles c g tree, CoveredT c tree f.path := by
+    intro f hf
+    obtain ⟨q, ⟨hc, _⟩, rfl⟩ := mem_spdxFiles.mp hf
+    exact hc
+  have hnames : ((spdxFiles c g tree).map fun f => spdxName f.path).Nodup := by
+    have h0 := spdxFiles_paths_nodup (c := c) (g := g) hwf
+    rw [List.nodup_iff_pairwise_ne, List.pairwise_map] at h0 ⊢
+    refine h0.imp_of_mem ?_
+    intro a b ha hb hne heq
+    apply hne
+    have hpa : a.path ≠ [] := by
+      have := (C01.C01_e2e_covered a.path).mp (hcov a ha)
+      obtain ⟨_, _, hne', _⟩ := this
+      exact hne'
+    exact spdxName_inj hpa (hgood _ (hcov a ha)) (hgood _ (hcov b hb)) heq
+  refine ⟨hnames, ?_⟩
+  unfold spdxReps
+  apply C18_ids_distinct o.md5 add (spdxInputs c o g tree) ?_ ?_ hinj
+  · simp only [spdxInputs, List.all_map, List.all_eq_true, Function.comp, fileInputOf, beq_iff_eq]
+    intro f hf
+    exact hlen _ (hcov f hf)
+  · simpa [spdxInputs, List.map_map, Function.comp_def, fileInputOf] using hnames
+
+end E2E
+
 -- ---------------------------------------------------------------- non-vacuity
 
 def exParams : DocParams :=
@@ -255,5 +523,29 @@ example : (exFiles.map (·.name)).Nodup := by decide
 example : injOn id (exFiles.map fun f => f.name ++ f.chk) = true := by decide
 example : BoolExpr.equiv (.and (.atom ['a']) (.or (.atom ['a']) (.atom ['b']))) (.atom ['a']) = true := by decide
 example : BoolExpr.equiv (.or (.atom ['a']) (.atom ['b'])) (.atom ['a']) = false := by decide
+
+-- the composed statements: the oracle hypothesis is satisfiable (and its decidable form evaluates), and the
+-- composed command yields a document
+def exOracles : SpdxOracles :=
+  { sha1 := fun _ => List.replicate 40 '0', md5 := id, exprKey := String.toList, render := String.toList, simplify := id }
+example (c : E2ECfg) (es : List String) : KeysRespectEq c exOracles es := by
+  intro a _ b _ h k
+  have : a = b := String.toList_inj.mp h
+  rw [this]
+example (c : E2ECfg) : keysRespectEqB c exOracles ["MIT", "0BSD"] = true := by
+  simp [keysRespectEqB, exOracles]
+example (c : E2ECfg) (o : SpdxOracles) (p : DocParams) :
+    spdxE2E spdxTable c o false p [("l", .symlink)] = .document (docText p [] []) := by
+  simp [spdxE2E, spdxCmd, globalOf, hasDep5, subtree, elookup, tomlFiles, iterFiles, toNodes, ENode.toNode, walkList,
+    walkNode, spdxInputs, spdxFiles, spdxLics, filesOf, coveredFiles, licFilesOf, findLicenses, findLoop]
+
+-- ... and the naming / well-formedness hypotheses of the bijection statements
+example : goodNames ["a b", "x.py"] := by
+  intro s hs
+  simp only [List.mem_cons, List.mem_nil_iff, or_false] at hs
+  rcases hs with rfl | rfl <;> decide
+example : ¬ goodNames ["a/b"] := by
+  intro h; exact (h "a/b" (by simp)).2 (by decide)
+example : wfEntries [("a.py", .file [35]), ("d", .dir [("a.py", .file [])])] := by simp [wfEntries, wfNode]
 
 end C18
